@@ -537,6 +537,58 @@ class Walker:
                 res2 = self.block(st.finalbody, res if res is not None else fh)
                 return res2 if res is not None else None
             return res
+        if isinstance(st, ast.Match):
+            # `match subject:` as an if/elif chain over `subject == value` (value patterns, or-patterns, wildcard); a case with any
+            # other pattern only forgets the names it may bind
+            self.expr(st.subject, facts)
+            outs2: List[Facts] = []
+            rest: Optional[Facts] = facts
+            exhaustive = False
+            for case in st.cases:
+                if rest is None:
+                    break
+                tests: List[ast.AST] = []
+                simple = True
+
+                def collect(pat: ast.AST) -> None:
+                    nonlocal simple
+                    if isinstance(pat, ast.MatchValue):
+                        tests.append(ast.Compare(left=st.subject, ops=[ast.Eq()], comparators=[pat.value]))
+                    elif isinstance(pat, ast.MatchSingleton):
+                        tests.append(ast.Compare(left=st.subject, ops=[ast.Is()], comparators=[ast.Constant(value=pat.value)]))
+                    elif isinstance(pat, ast.MatchOr):
+                        for q in pat.patterns:
+                            collect(q)
+                    else:
+                        simple = False
+
+                wildcard = isinstance(case.pattern, ast.MatchAs) and case.pattern.pattern is None
+                if not wildcard:
+                    collect(case.pattern)
+                bound = {n.name for n in ast.walk(case.pattern) if isinstance(n, (ast.MatchAs, ast.MatchStar)) and getattr(n, "name", None)}
+                f_in = rest.havoc(bound) if bound else rest
+                if wildcard and case.guard is None:
+                    exhaustive = True
+                elif simple and tests:
+                    cond: ast.AST = tests[0] if len(tests) == 1 else ast.BoolOp(op=ast.Or(), values=tests)
+                    ast.fix_missing_locations(cond)
+                    f_in = f_in.assume(cond, True)
+                    if case.guard is None:
+                        rest = rest.assume(cond, False)
+                if case.guard is not None:
+                    self.expr(case.guard, f_in)
+                    f_in = f_in.assume(case.guard, True)
+                o2 = self.block(case.body, f_in)
+                if o2 is not None:
+                    outs2.append(o2)
+                if exhaustive:
+                    rest = None
+            if rest is not None:
+                outs2.append(rest)
+            res3: Optional[Facts] = None
+            for o2 in outs2:
+                res3 = o2 if res3 is None else res3.join(o2)
+            return res3
         if isinstance(st, ast.With):
             f = facts
             for item in st.items:
